@@ -145,6 +145,8 @@ pub struct CaseOut {
     pub counters: BTreeMap<&'static str, u64>,
     /// hash of the case if it is non-trivial by the property's rule
     pub nontrivial: Option<u64>,
+    /// further hashes of distinct non-trivial items observed inside this case
+    pub nt_many: Vec<u64>,
     pub fails: Vec<Fail>,
     pub sample: Option<J>,
     pub inconclusive: Option<String>,
@@ -215,6 +217,9 @@ impl Rep {
         if let Some(h) = o.nontrivial {
             self.nt.insert(h);
         }
+        for h in o.nt_many {
+            self.nt.insert(h);
+        }
         if let Some(s) = o.sample {
             if self.samples.len() < 3 {
                 self.samples.push(s);
@@ -269,16 +274,22 @@ impl Rep {
     }
 }
 
+/// Wall-clock watchdog per case (seconds); a case that exceeds it is inconclusive and ends the shard.
+pub static CASE_TIMEOUT_S: std::sync::atomic::AtomicU64 = std::sync::atomic::AtomicU64::new(40);
+pub static RESUME_AT: std::sync::atomic::AtomicU64 = std::sync::atomic::AtomicU64::new(u64::MAX);
+pub static ABORT: std::sync::atomic::AtomicBool = std::sync::atomic::AtomicBool::new(false);
+
 /// Run one case in a fresh OS thread (fresh thread-local slot table, large stack).
 pub fn run_case<F>(case_seed: u64, f: F) -> CaseOut
 where
     F: FnOnce(&mut Rng) -> CaseOut + Send + 'static,
 {
+    let (tx, rx) = std::sync::mpsc::channel();
     let h = std::thread::Builder::new()
         .stack_size(256 << 20)
         .spawn(move || {
             let mut rng = Rng::new(case_seed);
-            match guard(|| f(&mut rng)) {
+            let o = match guard(|| f(&mut rng)) {
                 Ok(o) => o,
                 Err(p) => {
                     // a panic that escaped the property's own guards is a harness-level event:
@@ -287,11 +298,23 @@ where
                     o.fail(Fail::panic("harness-panic", &p, "uncaught panic in case", J::Null));
                     o
                 }
-            }
+            };
+            let _ = tx.send(o);
         })
         .expect("spawn");
-    match h.join() {
-        Ok(o) => o,
+    let t = CASE_TIMEOUT_S.load(std::sync::atomic::Ordering::Relaxed);
+    match rx.recv_timeout(std::time::Duration::from_secs(t)) {
+        Ok(o) => {
+            let _ = h.join();
+            o
+        }
+        Err(std::sync::mpsc::RecvTimeoutError::Timeout) => {
+            // the thread cannot be stopped; the shard ends here (remaining cases are counted as inconclusive)
+            ABORT.store(true, std::sync::atomic::Ordering::Relaxed);
+            let mut o = CaseOut::default();
+            o.inconclusive = Some(format!("case exceeded the {t}s watchdog"));
+            o
+        }
         Err(_) => {
             let mut o = CaseOut::default();
             o.inconclusive = Some("case thread died".into());
@@ -311,11 +334,22 @@ where
         rep.absorb(cs, o);
         return;
     }
-    let mut i = args.shard;
+    let mut i = args.shard.max(args.param_u("start", 0));
     while i < args.cases {
+        if ABORT.load(std::sync::atomic::Ordering::Relaxed) {
+            // a case thread is running away: this process image is replaced (main) and the shard resumes at `i`
+            RESUME_AT.store(i, std::sync::atomic::Ordering::Relaxed);
+            return;
+        }
         let cs = Rng::mix(args.seed, i);
         let g = f.clone();
         let o = run_case(cs, move |r| g(r, cs));
+        if let Some(w) = &o.inconclusive {
+            if w.contains("watchdog") {
+                eprintln!("WATCHDOG prop={} case_seed={}", args.prop, cs);
+                rep.extra.insert(format!("watchdog_case_seed_{}", cs), J::s(args.prop.clone()));
+            }
+        }
         rep.absorb(cs, o);
         i += args.nshards;
     }
